@@ -38,13 +38,29 @@ EXPLANATION = (
     'is applied per row before slicing (a trailing strip x[:-K] with a '
     'count K is rejected by the empty-slice half of the lemma: x[:-0] is '
     'empty) and every pair has weight one; (D5) the inferred number '
-    'of states comes from all assigned frames, not from the pair list. '
+    'of states comes from all assigned frames, not from the pair list, and a '
+    'method that hands self.<setting> to assigns_to_counts stores no '
+    'data-derived value into that setting (a second fit counts with the '
+    'constructor settings); an early exit of the helper with an empty pair '
+    'list is taken only when len(row) <= lag (linear decision over n, L). '
     'Additivity/permutation invariance as values follow but are not '
     're-derived.')
 
 
 # ---------------------------------------------------------------------------
 # generic helpers (candidates for promotion to sa/patterns.py / sa/cfg.py)
+
+def _classify(node, patterns, binds=None, scope=None, maxd=2):
+    """match.classify, with the third-wave reading of 'near': an expression
+    over the operands of the role is called a DIFFERENT function (violation)
+    only when it is a small edit (<= maxd positions) of an accepted form; an
+    arbitrary other spelling over the same operands may as well be an
+    equivalent the rule does not know -> 'far' (incomplete)."""
+    v = classify(node, patterns, binds=binds, scope=scope)
+    if v[0] == 'near' and v[1] > maxd:
+        return ('far',) + tuple(v[1:])
+    return v
+
 
 def _rebound(fi, name, ignore=()):
     """`name` (a parameter) is (re)bound somewhere in the function (other
@@ -335,10 +351,244 @@ def _loop_of(mod, node, fn):
     return None
 
 
+def _grown_comp(fi, mod, fn, name_node):
+    """A list built by the append idiom, read as the comprehension it is:
+
+        T = []                      (or list())
+        for x in IT:
+            <statements>
+            T.append(E)
+
+    followed by a use of T  ->  the synthetic `[E for x in IT]` whose elt,
+    target and iter are the ORIGINAL nodes (def-use queries and fi.expand keep
+    working on them).  Conditions: the only definition of T reaching the use
+    is the empty-list store, the append is the only in-place mutation of T,
+    it is an unconditional statement of the loop body, the loop has no
+    break/continue/return/else, store and loop sit in the same (innermost)
+    loop, and the loop dominates the use (which lies outside it).  None
+    otherwise."""
+    if not (isinstance(name_node, ast.Name) and isinstance(name_node.ctx, ast.Load)):
+        return None
+    try:
+        defs = fi.defs_of_use(name_node)
+    except Exception:
+        return None
+    if len(defs) != 1:
+        return None
+    init = next(iter(defs))
+    if not isinstance(init, ast.Assign) or len(init.targets) != 1 or not isinstance(init.targets[0], ast.Name):
+        return None
+    v = init.value
+    if not ((isinstance(v, ast.List) and not v.elts) or
+            (isinstance(v, ast.Call) and call_name(v) == 'list' and not v.args and not v.keywords)):
+        return None
+    muts = fi._mutated_in_place(name_node.id)
+    if len(muts) != 1 or not isinstance(muts[0], ast.Expr):
+        return None
+    call = muts[0].value
+    if not (isinstance(call, ast.Call) and isinstance(call.func, ast.Attribute) and call.func.attr == 'append'
+            and isinstance(call.func.value, ast.Name) and call.func.value.id == name_node.id
+            and len(call.args) == 1 and not call.keywords and not isinstance(call.args[0], ast.Starred)):
+        return None
+    loop = mod.parent.get(muts[0])
+    if not isinstance(loop, ast.For) or not any(muts[0] is b for b in loop.body) or loop.orelse:
+        return None
+    for n in ast.walk(loop):
+        if isinstance(n, (ast.Break, ast.Continue, ast.Return, ast.Yield, ast.YieldFrom)):
+            return None
+    if _loop_of(mod, loop, fn) is not _loop_of(mod, init, fn):
+        return None
+    use = fi.stmt(name_node)
+    if use is None or use is loop or _inside(mod, use, loop):
+        return None
+    if not (fi.cfg.dominates(init, loop) and fi.cfg.dominates(loop, use)):
+        return None
+    # the loop variable / iterable are not disturbed by the body
+    tnames = {x.id for x in ast.walk(loop.target) if isinstance(x, ast.Name)}
+    for b in loop.body:
+        for s in ast.walk(b):
+            if isinstance(s, ast.stmt) and tnames & set(stmt_defs(s)):
+                return None
+    comp = ast.ListComp(elt=call.args[0], generators=[
+        ast.comprehension(target=loop.target, iter=loop.iter, ifs=[], is_async=0)])
+    comp._grown_from = loop
+    return comp
+
+
+def _unpacked(fi, name_node):
+    """(X, i, n) when the Name use is bound by the unpacking `a0, .., an-1 =
+    X` (X not a display, no starred target) as its only reaching definition
+    and X denotes the same value at the use: the name then IS `X[i]`."""
+    if not (isinstance(name_node, ast.Name) and isinstance(name_node.ctx, ast.Load)):
+        return None
+    try:
+        defs = fi.defs_of_use(name_node)
+    except Exception:
+        return None
+    if len(defs) != 1:
+        return None
+    site = next(iter(defs))
+    if not isinstance(site, ast.Assign) or len(site.targets) != 1:
+        return None
+    t = site.targets[0]
+    if not isinstance(t, (ast.Tuple, ast.List)) or not all(isinstance(e, ast.Name) for e in t.elts):
+        return None
+    if isinstance(site.value, (ast.Tuple, ast.List)) or not is_pure(site.value):
+        return None
+    idx = [i for i, e in enumerate(t.elts) if e.id == name_node.id]
+    if len(idx) != 1 or fi._mutated_in_place(name_node.id):
+        return None
+    use = fi.stmt(name_node)
+    for m in walk_expr(site.value):
+        if isinstance(m, ast.Name) and isinstance(m.ctx, ast.Load):
+            if fi.rd.defs_at(site, m.id) != fi.rd.defs_at(use, m.id):
+                return None
+            for ms in fi._mutated_in_place(m.id):
+                if ms is not site and fi.cfg.reachable(site, ms) and fi.cfg.reachable(ms, use, avoiding=[site]):
+                    return None
+    return site.value, idx[0], len(t.elts)
+
+
+# ---------------------------------------------------------------------------
+# rows without a lagged pair: linear arithmetic over (n = len(row), L = lag)
+
+def _len_operand(e):
+    """X for the spellings of "number of elements of the 1-d array X":
+    len(X), X.size, X.shape[0]."""
+    if isinstance(e, ast.Call) and call_name(e) == 'len' and len(e.args) == 1 and not e.keywords:
+        return e.args[0]
+    if isinstance(e, ast.Attribute) and e.attr == 'size':
+        return e.value
+    if isinstance(e, ast.Subscript) and const_value(e.slice) == 0 and isinstance(e.value, ast.Attribute) and e.value.attr == 'shape':
+        return e.value.value
+    return None
+
+
+def _lin2(e, is_len, lag):
+    """{'n': a, 'L': b, 1: c} with e == a*n + b*L + c, where n is any
+    expression accepted by `is_len` (the number of frames of the row) and L
+    the name `lag`; integer literals, +, -, unary minus, multiplication by a
+    literal.  None otherwise."""
+    if is_len(e):
+        return {'n': 1, 'L': 0, 1: 0}
+    if isinstance(e, ast.Constant):
+        if isinstance(e.value, int) and not isinstance(e.value, bool):
+            return {'n': 0, 'L': 0, 1: e.value}
+        return None
+    if isinstance(e, ast.Name):
+        return {'n': 0, 'L': 1, 1: 0} if e.id == lag else None
+    if isinstance(e, ast.UnaryOp) and isinstance(e.op, (ast.USub, ast.UAdd)):
+        v = _lin2(e.operand, is_len, lag)
+        if v is None:
+            return None
+        return {k: -x for k, x in v.items()} if isinstance(e.op, ast.USub) else v
+    if isinstance(e, ast.BinOp):
+        a, b = _lin2(e.left, is_len, lag), _lin2(e.right, is_len, lag)
+        if a is None or b is None:
+            return None
+        if isinstance(e.op, ast.Add):
+            return {k: a[k] + b[k] for k in a}
+        if isinstance(e.op, ast.Sub):
+            return {k: a[k] - b[k] for k in a}
+        if isinstance(e.op, ast.Mult):
+            for p, q in ((a, b), (b, a)):
+                if p['n'] == 0 and p['L'] == 0:
+                    return {k: p[1] * q[k] for k in q}
+    return None
+
+
+def _skip_atom(cj, is_len, lag, expand):
+    """Verdict for ONE atomic condition (a conjunct from patterns.conjuncts)
+    under which a trajectory row contributes no pair list: 'ok' when the
+    condition implies len(row) <= lag for every lag >= 1 (such a row has no
+    lagged pair: both a[:-L] and a[L:] are empty), 'bad' when it also holds
+    for some row longer than the lag (that row's max(0, n - L) pairs are
+    lost), 'far' when it is not a linear condition on the row length.
+
+    Decision: the condition is brought to  a*n + b*L + c <= 0  over the
+    integers.  a > 0: it says n <= floor((-c - b*L)/a), which is <= L for all
+    L >= 1 iff (a + b)*L + a + c > 0 for all L >= 1 iff a + b >= 0 and
+    2a + b + c > 0.  a < 0: it holds for every sufficiently long row."""
+    if isinstance(cj, tuple):
+        if cj[0] == 'expr' and is_len(expand(cj[1])):
+            return 'bad' if cj[2] else 'ok'         # `if n:` skips non-empty rows / `if not n:` only empty ones
+        return 'far'
+    if not isinstance(cj, Cmp):
+        return 'far'
+    lhs, rhs = _lin2(expand(cj.lhs), is_len, lag), _lin2(expand(cj.rhs), is_len, lag)
+    if lhs is None or rhs is None:
+        return 'far'
+    d = {k: lhs[k] - rhs[k] for k in lhs}           # lhs - rhs
+    if d['n'] == 0:
+        return 'far'
+    rel = cj.rel
+    if rel in ('>', '>='):
+        d = {k: -x for k, x in d.items()}
+        rel = '<' if rel == '>' else '<='
+    if rel == '<':
+        d[1] += 1
+        rel = '<='
+    if rel == '<=':
+        a, b, c = d['n'], d['L'], d[1]
+        if a < 0:
+            return 'bad'
+        return 'ok' if a + b >= 0 and 2 * a + b + c > 0 else 'bad'
+    if rel == '==':
+        # n == (-b*L - c)/a : harmless iff that value is <= L for all L >= 1
+        a, b, c = d['n'], d['L'], d[1]
+        if a < 0:
+            a, b, c = -a, -b, -c
+        return 'ok' if a + b >= 0 and a + b + c >= 0 else 'bad'
+    if rel == '!=':
+        return 'bad'
+    return 'far'
+
+
+def _skip_verdict(assumes, flag, is_len, lag, expand):
+    """Verdict for the conjunction of branch conditions `assumes` (conditions
+    on the never-rebound flag are left out: they select executions, not rows)
+    as the condition under which a row is skipped.  A conjunction implies
+    n <= L as soon as one conjunct does; a single conjunct that does not is a
+    violation; several undecided ones are not decided."""
+    vs = []
+    for a in assumes:
+        cs = conjuncts(a.test, a.polarity)
+        if cs is None:
+            vs.append('far')
+            continue
+        for cj in cs:
+            if flag is not None and isinstance(cj, tuple) and cj[0] == 'expr' and isinstance(cj[1], ast.Name) and cj[1].id == flag:
+                continue
+            vs.append(_skip_atom(cj, is_len, lag, expand))
+    if 'ok' in vs:
+        return 'ok'
+    if vs == ['bad']:
+        return 'bad'
+    return 'far'
+
+
+def _empty_pairs(e):
+    """`e` is syntactically a (2, 0) array: the pair list of a row without
+    pairs (np.empty/zeros/ones/full((2, 0)...), np.array([[], []]),
+    np.row_stack/vstack(([], [])))."""
+    if not isinstance(e, ast.Call):
+        return False
+    cn = call_name(e) or ''
+    if cn in ('np.empty', 'np.zeros', 'np.ones', 'np.full'):
+        sh = arg_or_kw(e, 0, 'shape')
+        return isinstance(sh, (ast.Tuple, ast.List)) and [const_value(x) for x in sh.elts] == [2, 0] and \
+            all(type(const_value(x)) is int for x in sh.elts)
+    if cn in ('np.array', 'np.asarray', 'np.row_stack', 'np.vstack') and e.args:
+        x = e.args[0]
+        return isinstance(x, (ast.Tuple, ast.List)) and len(x.elts) == 2 and all(
+            isinstance(y, (ast.Tuple, ast.List)) and not y.elts for y in x.elts)
+    return False
+
+
 # ---------------------------------------------------------------------------
 # D1/D2: the helper
 
-_STACKS = ('np.row_stack', 'np.vstack', 'np.array', 'np.asarray', 'np.stack')
+_STACKS =('np.row_stack', 'np.vstack', 'np.array', 'np.asarray', 'np.stack')
 
 
 def _slice_parts(e):
@@ -419,6 +669,33 @@ def d1_slices(ck):
         ck.missing(rule, '%s returns nothing' % HELPER)
         return
     n = 0
+    # early exits: a return of an EMPTY pair list under a condition on the row length.  It agrees with
+    # the slice lemma (a[:-L] and a[L:] are both empty) exactly when the condition implies len(a) <= L.
+    def is_len(e):
+        x = _len_operand(e)
+        return isinstance(x, ast.Name) and x.id == arr
+    handled = set()
+    early = []
+    for r in rets:
+        other = [a for a in _assumes(fi, r) if _flag_truth(a.test, a.polarity, sw) is None]
+        if not other or not _empty_pairs(canon(fi.expand(r.value))):
+            continue
+        early.append(r)
+        cond = ' and '.join(('' if a.polarity else 'not ') + '(%s)' % u(a.test)[:60] for a in other)
+        v = _skip_verdict(other, sw, is_len, lag, lambda e: canon(fi.expand(e)))
+        construct = 'empty pair list returned when %s' % cond
+        if v == 'far':
+            ck.missing('C03.D1.short-row', 'condition of the early exit at %s not recognised as a bound on the row length: %s' % (
+                mod.loc(r), cond[:120]))
+            continue
+        for a in other:
+            handled.add(id(a.owner))
+        ck.check(v == 'ok', 'C03.D1.short-row', mod, r, HELPER, construct,
+                 'the early exit is taken only when len(%s) <= %s, where both slices of the lemma are empty' % (arr, lag),
+                 'a trajectory holds max(0, len - %s) lagged pairs, so the helper may return an empty pair list only when '
+                 'len(%s) <= %s; the condition `%s` also holds for some longer row, whose pairs are then missing '
+                 'from the counts' % (lag, arr, lag, cond[:100]))
+    rets = [r for r in rets if not any(r is x for x in early)]
     for label, truth in (('sliding', True), ('strided', False)):
         step = lag if not truth else '1'
         live = [r for r in rets if not _excluded(fi, r, sw, truth)]
@@ -427,7 +704,7 @@ def d1_slices(ck):
             continue
         for r in live:
             n += 1
-            other = [a for a in _assumes(fi, r) if _flag_truth(a.test, a.polarity, sw) is None]
+            other = [a for a in _assumes(fi, r) if _flag_truth(a.test, a.polarity, sw) is None and id(a.owner) not in handled]
             if other:
                 ck.missing(rule, 'return at %s depends on a condition the slice lemma does not cover: %s' % (
                     mod.loc(r), u(other[0].test)[:80]))
@@ -449,7 +726,7 @@ def d1_slices(ck):
                     continue
                 elts = val.args[0].elts
             if elts is None:
-                v = classify(val, ['np.row_stack((_A, _B))'], scope={arr, lag, sw})
+                v = _classify(val, ['np.row_stack((_A, _B))'], scope={arr, lag, sw})
                 ck.decide(v, 'C03.D2.orientation', mod, r, HELPER, text, '',
                           'the helper must return the 2-row stack (from_states, to_states)')
                 continue
@@ -508,29 +785,60 @@ class _Counts:
             ck.missing(rule, 'parameter `%s` is rebound in %s' % (lag, COUNTS))
             return
 
+        def as_lag(e):
+            """`e` expanded, with int(lag)/operator.index(lag) read as lag
+            (the identity on the integral values that pass the type check)."""
+            class _T(ast.NodeTransformer):
+                def visit_Call(self, n):
+                    self.generic_visit(n)
+                    if call_name(n) in _INT_CASTS and len(n.args) == 1 and not n.keywords and \
+                            isinstance(n.args[0], ast.Name) and n.args[0].id == lag:
+                        return n.args[0]
+                    return n
+            return _T().visit(fi.expand(e))
+
         def bound(a):
-            """(k, strict): the assumption implies k < lag resp. k <= lag."""
+            """(k, a): the assumption implies lag >= k, from a conjunct that
+            is an ordering between two linear forms c0 + c1*lag."""
             for c in conjuncts(a.test, a.polarity) or []:
-                if isinstance(c, Cmp):
-                    less = c.as_less()
-                    if less and isinstance(less[2], ast.Name) and less[2].id == lag:
-                        k = const_value(less[0])
-                        if isinstance(k, int) and not isinstance(k, bool):
-                            return k, less[1], a
+                less = c.as_less() if isinstance(c, Cmp) else None
+                if not less:
+                    continue
+                ls, lb = _lin(as_lag(less[0]), lag), _lin(as_lag(less[2]), lag)
+                if ls is None or lb is None:
+                    continue
+                c0, c1 = ls[0] - lb[0] + (1 if less[1] else 0), ls[1] - lb[1]      # c0 + c1*lag <= 0
+                if c1 >= 0:
+                    continue        # an upper bound on the lag (or none at all)
+                return -((-c0) // (-c1)), a                                       # lag >= ceil(c0 / -c1)
             return None
+
+        def compares_lag(a):
+            """The condition orders/equates the lag with something (as
+            opposed to a type test), in a form `bound` did not read."""
+            cs = conjuncts(a.test, a.polarity)
+            if cs is None:
+                return any(isinstance(x, ast.Name) and x.id == lag for x in walk_expr(a.test)) and \
+                    any(isinstance(x, ast.Compare) for x in walk_expr(a.test))
+            return any(isinstance(c, Cmp) and c.rel in ('<', '<=', '>', '>=', '==', '!=') and any(
+                isinstance(x, ast.Name) and x.id == lag for side in (c.lhs, c.rhs) for x in walk_expr(side)) for c in cs)
         for hc in helper_calls:
             hs = fi.stmt(hc)
             bs = [b for b in (bound(a) for a in _assumes(fi, hs)) if b]
-            good = [b for b in bs if (b[1] and b[0] == 0) or (not b[1] and b[0] == 1)]
+            good = [b for b in bs if b[0] == 1]
             if good:
-                ck.ok(rule, mod, good[0][2].owner, 'not (%s)' % u(good[0][2].test) if not good[0][2].polarity else u(good[0][2].test),
+                ck.ok(rule, mod, good[0][1].owner, 'not (%s)' % u(good[0][1].test) if not good[0][1].polarity else u(good[0][1].test),
                       '%s < 1 raises/leaves on every path to the helper call at %s (a[:-0] would be empty)' % (lag, mod.loc(hc)))
                 continue
             if bs:
-                ck.bad(rule, mod, bs[0][2].owner, COUNTS, '%s < 1' % lag,
+                ck.bad(rule, mod, bs[0][1].owner, COUNTS, '%s < 1' % lag,
                        'the lag guard in front of the helper call is `%s` (assumed %s): exactly the lags < 1 must be '
                        'rejected (L = 0 makes a[:-0] empty, negative lags pair the wrong frames, lag 1 is valid)' % (
-                           u(bs[0][2].test), bs[0][2].polarity))
+                           u(bs[0][1].test), bs[0][1].polarity))
+                continue
+            odd = [a for a in _assumes(fi, hs) if compares_lag(a)]
+            if odd:
+                ck.missing(rule, 'a condition on `%s` in front of the helper call is not read as a lower bound: %s' % (lag, u(odd[0].test)[:100]))
                 continue
             # a validator the rule cannot see through?
             cands = []
@@ -649,7 +957,7 @@ class _Counts:
                         'lemma needs L >= 1), so that trajectory loses all its frames; ' % u(up.operand)[:60],
                         'row filter: %s' % u(e)[:120])
             return 'far'
-        verdict = classify(e, _MASKS, binds={'_V': ast.Name(id=t, ctx=ast.Load())}, scope={t})
+        verdict = _classify(e, _MASKS, binds={'_V': ast.Name(id=t, ctx=ast.Load())}, scope={t})
         if verdict[0] == 'match':
             return 'masked'
         if verdict[0] == 'near':
@@ -670,6 +978,9 @@ class _Counts:
         if isinstance(v, ast.Name):
             if self.is_raw(v):
                 return 'raw'
+            g = _grown_comp(fi, self.mod, self.fn, v)
+            if g is not None:
+                return self.masked_form(g, depth - 1)
             if depth <= 0:
                 return 'far'
             kinds = []
@@ -731,7 +1042,7 @@ class _Counts:
         if lv is None:
             ck.bad('C03.D3.per-row', mod, hc, COUNTS, u(hc), 'the helper must receive lag_time=%s (its default is used instead)' % lag)
         else:
-            v = classify(fi.expand(lv), [lag, 'int(%s)' % lag], scope={lag, sw, nst})
+            v = _classify(fi.expand(lv), [lag, 'int(%s)' % lag], scope={lag, sw, nst})
             if v[0] == 'match' and _rebound(fi, lag, ignore=_int_normalisations(fi, lag)):
                 v = ('far', 0, None)
             ck.decide(v, 'C03.D3.per-row', mod, hc, COUNTS, '%s: lag = %s' % (u(hc)[:120], u(lv)),
@@ -772,7 +1083,7 @@ class _Counts:
             # another pure function of the iteration variable alone (row[::2], row[1:], ...)
             for x in walk_expr(ax):
                 if isinstance(x, ast.Name) and self.binder(x, hc)[0] is not None:
-                    v = classify(fi.expand(ax), _MASKS + ['_V'], binds={'_V': ast.Name(id=x.id, ctx=ast.Load())}, scope={x.id})
+                    v = _classify(fi.expand(ax), _MASKS + ['_V'], binds={'_V': ast.Name(id=x.id, ctx=ast.Load())}, scope={x.id})
                     if v[0] == 'near':
                         ck.bad('C03.D3.per-row', mod, hc, COUNTS, u(hc)[:200],
                                'the helper must receive the (filtered) trajectory row `%s` itself, not `%s`: every frame of the '
@@ -813,6 +1124,9 @@ class _Counts:
             ck.ok('C03.D4.mask', mod, hc, construct, 'padding -1 is removed from the row handed to the helper')
         elif rk == 'masked':
             ck.ok('C03.D4.mask', mod, hc, construct, 'padding -1 is removed per row before the lagged slices are taken')
+        elif rk == 'raw' and _rebound(finfo(mod, mod.func(HELPER)), hp[0]):
+            ck.missing('C03.D4.mask', 'the rows reach the helper unfiltered and %s rebinds its trajectory parameter `%s`: '
+                       'a filter applied inside the helper is not followed' % (HELPER, hp[0]))
         elif rk == 'raw':
             ck.bad('C03.D4.mask', mod, hc, COUNTS, construct, why_bad)
         elif isinstance(rk, tuple):
@@ -855,20 +1169,29 @@ class _Counts:
         ck, mod, fn, fi = self.ck, self.mod, self.fn, self.fi
         assigns, lag, nst, sw = self.ps[:4]
         coo = [c for c in calls_in(fn) if (call_name(c) or '').split('.')[-1] == 'coo_matrix']
-        if len(coo) != 1:
-            ck.missing('C03.D2.coo', 'coo_matrix construction (found %d)' % len(coo))
+        if not coo:
+            ck.missing('C03.D2.coo', 'coo_matrix construction (found 0)')
             return
-        c = coo[0]
+
+        def is_coo(e):
+            return any(e is c for c in coo)
         for r in returns_of(fn):
             rv = _orig(fi, r.value) if r.value is not None else None
-            if rv is c:
+            if is_coo(rv):
                 continue
-            if isinstance(rv, ast.Attribute) and rv.attr == 'T' and _orig(fi, rv.value) is c or \
+            if isinstance(rv, ast.Attribute) and rv.attr == 'T' and is_coo(_orig(fi, rv.value)) or \
                     isinstance(rv, ast.Call) and isinstance(rv.func, ast.Attribute) and rv.func.attr == 'transpose' \
-                    and _orig(fi, rv.func.value) is c:
+                    and is_coo(_orig(fi, rv.func.value)):
                 ck.bad('C03.D2.coo', mod, r, COUNTS, u(r), 'the count matrix is returned transposed (from/to states exchanged)')
             else:
                 ck.missing('C03.D2.coo', 'returned value is not the coo_matrix itself: %s' % u(r)[:120])
+        # one construction per way out (e.g. requested / inferred number of states): each is examined
+        for c in coo:
+            self.one_coo(c, helper_calls)
+
+    def one_coo(self, c, helper_calls):
+        ck, mod, fn, fi = self.ck, self.mod, self.fn, self.fi
+        assigns, lag, nst, sw = self.ps[:4]
         shape = arg_or_kw(c, 1, 'shape')
         tup = arg_or_kw(c, 0, 'arg1')
         n_node = None
@@ -882,6 +1205,10 @@ class _Counts:
                 same = u(canon(e0)) == u(canon(e1))
                 if same and isinstance(e0, ast.Name) and fi.defs_of_use(e0) == fi.defs_of_use(e1):
                     n_node = e0
+                    ck.ok('C03.D2.coo', mod, c, u(c), 'square matrix with the requested/inferred number of states')
+                elif same and all(isinstance(x, ast.Name) for x in sh.elts) and fi.same_value(sh.elts[0], sh.elts[1]):
+                    # a named value (n = <largest state> + 1) used twice
+                    n_node = sh.elts[0]
                     ck.ok('C03.D2.coo', mod, c, u(c), 'square matrix with the requested/inferred number of states')
                 elif not same:
                     ck.bad('C03.D2.coo', mod, c, COUNTS, u(c), 'the count matrix must have shape (max_n_states, max_n_states)')
@@ -902,6 +1229,11 @@ class _Counts:
                 e = _orig(fi, e)
                 if isinstance(e, ast.Subscript) and isinstance(const_value(e.slice), int):
                     idx.append((e.value, const_value(e.slice)))
+                elif isinstance(e, ast.Name):
+                    # `r, c = X` for a 2-row X: r is X[0], c is X[1]
+                    un = _unpacked(fi, e)
+                    if un is not None and un[2] == 2:
+                        idx.append((un[0], un[1]))
             if len(idx) == 2 and u(canon(idx[0][0])) == u(canon(idx[1][0])) and (idx[0][1], idx[1][1]) == (0, 1):
                 coords = idx[0][0]
             elif len(idx) == 2 and u(canon(idx[0][0])) == u(canon(idx[1][0])) and (idx[0][1], idx[1][1]) == (1, 0):
@@ -991,42 +1323,16 @@ class _Counts:
             if a0 is not None:
                 rows.add(fi.xu(a0))
 
-        def row_len(e):
-            e = canon(fi.expand(e))
-            x = None
-            if isinstance(e, ast.Call) and call_name(e) == 'len' and len(e.args) == 1 and not e.keywords:
-                x = e.args[0]
-            elif isinstance(e, ast.Attribute) and e.attr == 'size':
-                x = e.value
-            elif isinstance(e, ast.Subscript) and const_value(e.slice) == 0 and isinstance(e.value, ast.Attribute) and e.value.attr == 'shape':
-                x = e.value.value
+        def is_len(e):
+            x = _len_operand(e)
             return x is not None and u(x) in rows
 
         def atom(cj):
-            """'ok' (skips only rows without pairs) | 'bad' | 'far'."""
-            if isinstance(cj, tuple):
-                if cj[0] == 'expr' and row_len(cj[1]):
-                    return 'ok' if cj[2] else 'bad'
-                return 'far'
-            less = cj.as_less() if isinstance(cj, Cmp) else None
-            if less is None:
-                if isinstance(cj, Cmp) and cj.rel in ('==', '!=') and (row_len(cj.lhs) or row_len(cj.rhs)):
-                    other = cj.rhs if row_len(cj.lhs) else cj.lhs
-                    if cj.rel == '!=' and const_value(fi.expand(other)) == 0:
-                        return 'ok'
-                    return 'bad' if _lin(fi.expand(other), lag) is not None else 'far'
-                return 'far'
-            small, strict, big = less
-            if row_len(big):
-                k = _lin(fi.expand(small), lag)
-                if k is None:
-                    return 'far'
-                c0, c1 = k[0] - (0 if strict else 1), k[1]
-                # rows with len <= c0 + c1*lag are skipped: harmless iff that bound is <= lag for every lag >= 1
-                return 'ok' if c1 <= 1 and c0 + c1 <= 1 else 'bad'
-            if row_len(small):
-                return 'bad' if _lin(fi.expand(big), lag) is not None else 'far'
-            return 'far'
+            """'ok' (skips only rows without pairs) | 'bad' | 'far' for a
+            condition under which the pair list IS counted: the row is
+            skipped under its negation."""
+            neg = (cj[0], cj[1], not cj[2]) if isinstance(cj, tuple) else cj.negated()
+            return _skip_atom(neg, is_len, lag, lambda e: canon(fi.expand(e)))
         for a in guards:
             cs = conjuncts(a.test, a.polarity)
             text = ('' if a.polarity else 'not ') + '(%s)' % u(a.test)[:100]
@@ -1212,7 +1518,8 @@ class _Counts:
         rows = set()
         for t in ctexts:
             counts |= {'%s.shape[1]' % t, '%s.shape[-1]' % t, 'len(%s[0])' % t, 'len(%s[1])' % t, '%s[0].size' % t,
-                       '%s[1].size' % t, '%s[0].shape[0]' % t, 'len(%s.T)' % t, '%s.T.shape[0]' % t}
+                       '%s[1].size' % t, '%s[0].shape[0]' % t, '%s[1].shape[0]' % t, 'len(%s.T)' % t, '%s.T.shape[0]' % t,
+                       '%s[0].shape' % t, '%s[1].shape' % t, '%s.shape[1:]' % t}
             rows |= {'%s[0]' % t, '%s[1]' % t, '%s[0, :]' % t, '%s[1, :]' % t}
         scope = {lag, sw, nst, assigns} | {x.id for x in walk_expr(coords) if isinstance(x, ast.Name)} | \
             {x.id for x in walk_expr(fi.expand(coords)) if isinstance(x, ast.Name)}
@@ -1266,7 +1573,7 @@ class _Counts:
                 elif u(kx) in counts and fill_ok and same_coords(k, s):
                     verdict = dtype_verdict(d)
                 else:
-                    verdict = classify(kx, sorted(counts), scope=scope)[0]
+                    verdict = _classify(kx, sorted(counts), scope=scope)[0]
                     verdict = 'bad' if verdict == 'near' or not fill_ok else 'far'
             elif cn == 'np.ones_like' and v.args:
                 x = canon(fi.expand(v.args[0]))
@@ -1279,9 +1586,9 @@ class _Counts:
                                'then wraps around for narrow integer types; ' + why)
                         continue
                 else:
-                    verdict = 'bad' if classify(x, sorted(rows), scope=scope)[0] == 'near' else 'far'
+                    verdict = 'bad' if _classify(x, sorted(rows), scope=scope)[0] == 'near' else 'far'
             else:
-                verdict = 'bad' if classify(fi.expand(v), ['np.ones(_K)'], scope=scope)[0] == 'near' else 'far'
+                verdict = 'bad' if _classify(fi.expand(v), ['np.ones(_K)'], scope=scope)[0] == 'near' else 'far'
             if verdict == 'ok':
                 ck.ok(rule, mod, s, construct, 'one unit of weight per coordinate column (duplicates summed by COO)')
             elif verdict == 'bad':
@@ -1299,6 +1606,7 @@ class _Counts:
         if n_node is None:
             return
         inferred = 0
+        arms = []
         for s in fi.defs_of_use(n_node):
             if s == 'PARAM' and n_node.id == nst:
                 continue
@@ -1307,24 +1615,33 @@ class _Counts:
                 ck.missing(rule, 'definition of the number of states not recognised (%s)' % (s if isinstance(s, str) else mod.loc(s)))
                 continue
             vo = _orig(fi, v)
+            if isinstance(vo, ast.IfExp):
+                # n = <inferred> if nst is None else nst : one definition per arm, under the arm's condition
+                arms.append((s, vo.body, [(vo.test, True)]))
+                arms.append((s, vo.orelse, [(vo.test, False)]))
+            else:
+                arms.append((s, v, []))
+        for s, v, extra in arms:
+            vo = _orig(fi, v)
             if isinstance(vo, ast.Name) and vo.id == nst and fi.defs_of_use(vo) == {'PARAM'}:
                 continue
             inferred += 1
-            construct = u(s)
+            construct = u(s) if not extra else '%s  [arm: %s]' % (u(s)[:100], u(v)[:80])
             # executed exactly when no number of states was requested
+            conds = [(a.test, a.polarity) for a in _assumes(fi, s)] + extra
             guards = []
-            for a in _assumes(fi, s):
-                for cj in conjuncts(a.test, a.polarity) or []:
+            for test, pol in conds:
+                for cj in conjuncts(test, pol) or []:
                     if isinstance(cj, Cmp) and isinstance(cj.lhs, ast.Name) and cj.lhs.id == nst and \
                             isinstance(cj.rhs, ast.Constant) and cj.rhs.value is None:
                         guards.append(cj.rel)
-            mentions = [a for a in _assumes(fi, s) if any(isinstance(x, ast.Name) and x.id == nst for x in walk_expr(a.test))]
+            mentions = [test for test, pol in conds if any(isinstance(x, ast.Name) and x.id == nst for x in walk_expr(test))]
             if not any(g in ('is', '==') for g in guards):
                 if guards or not mentions:
                     ck.bad(rule, mod, s, COUNTS, construct, 'the number of states may only be inferred when `%s is None`: '
                            'a requested number of states must be used as given' % nst)
                 else:
-                    ck.missing(rule, 'condition under which the number of states is inferred not recognised: %s' % u(mentions[0].test)[:100])
+                    ck.missing(rule, 'condition under which the number of states is inferred not recognised: %s' % u(mentions[0])[:100])
                 continue
             _, calls = fi.derives_from(v)
             if HELPER in calls:
@@ -1333,7 +1650,7 @@ class _Counts:
             vx = canon(fi.expand(v))
             m = match_any(['_X.max() + 1', '1 + _X.max()', 'int(_X.max()) + 1', 'int(_X.max() + 1)'], vx)
             if m is None:
-                verdict = classify(vx, ['np.concatenate(%s).max() + 1' % assigns], scope={assigns})
+                verdict = _classify(vx, ['np.concatenate(%s).max() + 1' % assigns], scope={assigns})
                 ck.decide(verdict, rule, mod, s, COUNTS, construct, '', why)
                 continue
             x = m['_X']
@@ -1349,18 +1666,58 @@ class _Counts:
                     ok = True
                 elif isinstance(r, (ast.ListComp, ast.GeneratorExp)) and len(r.generators) == 1 and not r.generators[0].ifs \
                         and isinstance(r.generators[0].iter, ast.Name) and r.generators[0].iter.id == assigns \
-                        and isinstance(r.generators[0].target, ast.Name) and classify(
+                        and isinstance(r.generators[0].target, ast.Name) and _classify(
                             r.elt, _MASKS + ['_V'], binds={'_V': ast.Name(id=r.generators[0].target.id, ctx=ast.Load())})[0] == 'match':
                     ok = True
+            if not ok and self.all_frames_max(v) in ('masked', 'raw'):
+                ok = True       # the same, with rows built by an append loop / named intermediate values
             if ok:
                 ck.ok(rule, mod, s, construct, 'inferred number of states = largest assigned state + 1 over ALL assigned frames')
                 self.n_states_width(s, vx, x)
             else:
-                verdict = classify(vx, ['np.concatenate(%s).max() + 1' % assigns], scope={assigns})
+                verdict = _classify(vx, ['np.concatenate(%s).max() + 1' % assigns], scope={assigns})
                 ck.decide(verdict, rule, mod, s, COUNTS, construct, '', why)
-        if not inferred:
+        # a construction that runs only when a number of states was requested needs no inference
+        given = False
+        for a in _assumes(fi, fi.stmt(c)):
+            for cj in conjuncts(a.test, a.polarity) or []:
+                if isinstance(cj, Cmp) and isinstance(cj.lhs, ast.Name) and cj.lhs.id == nst and \
+                        isinstance(cj.rhs, ast.Constant) and cj.rhs.value is None and cj.rel in ('is not', '!='):
+                    given = True
+        if given and not inferred and n_node.id == nst and fi.defs_of_use(n_node) == {'PARAM'}:
+            ck.ok(rule, mod, c, '%s (requested)' % nst, 'under `%s is not None` the requested number of states is used as given' % nst)
+        elif not inferred:
             ck.bad(rule, mod, c, COUNTS, nst, 'no inference of the number of states when `%s` is None; ' % nst + why)
 
+
+    def all_frames_max(self, v):
+        """For `v` = (int of) the maximum over a concatenation of rows R, plus
+        one - followed through temporaries on the nodes of the analysed tree -
+        the kind of R as decided by masked_form ('masked' / 'raw': all frames
+        of all trajectories); None when `v` does not have that shape."""
+        fi = self.fi
+
+        def unint(e):
+            e = _orig(fi, e)
+            while isinstance(e, ast.Call) and call_name(e) in _INT_CASTS and len(e.args) == 1 and not e.keywords:
+                e = _orig(fi, e.args[0])
+            return e
+        e = unint(v)
+        if not (isinstance(e, ast.BinOp) and isinstance(e.op, ast.Add)):
+            return None
+        one = [x for x in (e.left, e.right) if type(const_value(x)) is int and const_value(x) == 1]
+        if len(one) != 1:
+            return None
+        o = unint(e.right if one[0] is e.left else e.left)
+        if not (isinstance(o, ast.Call) and isinstance(o.func, ast.Attribute) and o.func.attr == 'max' and not o.args and not o.keywords):
+            return None
+        w = _orig(fi, o.func.value)
+        if not (isinstance(w, ast.Call) and call_name(w) in _JOINS and len(w.args) == 1):
+            return None
+        if w.keywords and not (call_name(w) == 'np.concatenate' and len(w.keywords) == 1 and w.keywords[0].arg == 'axis'
+                               and isinstance(w.keywords[0].value, ast.Constant) and w.keywords[0].value.value in (0, None)):
+            return None
+        return self.masked_form(w.args[0])
 
     # -- added after the bug hunt (narrow-dtype-nstates-overflow, unsigned-lag-crash) ------
     def n_states_width(self, s, vx, x):
@@ -1498,10 +1855,103 @@ def d_counts(ck):
     k.coo(helper_calls)
 
 
+# ---------------------------------------------------------------------------
+# D5 (callers): the requested settings of the counting are not overwritten by the method that counts
+
+MSM_PY = 'enspara/msm/msm.py'
+
+
+def _self_attr_stores(fn, me):
+    """[(statement, attribute, value-or-None)] for the stores `me.X = v`,
+    `me.X op= v`, `setattr(me, 'X', v)` in `fn`."""
+    out = []
+    for s in ast.walk(fn):
+        targets = []
+        if isinstance(s, ast.Assign):
+            for t in s.targets:
+                if isinstance(t, (ast.Tuple, ast.List)):
+                    targets += [(e, None) for e in t.elts]
+                else:
+                    targets.append((t, s.value))
+        elif isinstance(s, (ast.AugAssign, ast.AnnAssign)):
+            targets.append((s.target, s.value))
+        elif isinstance(s, ast.Expr) and isinstance(s.value, ast.Call) and call_name(s.value) == 'setattr' and len(s.value.args) == 3 \
+                and isinstance(s.value.args[0], ast.Name) and s.value.args[0].id == me and isinstance(const_value(s.value.args[1]), str):
+            out.append((s, const_value(s.value.args[1]), s.value.args[2]))
+        for t, v in targets:
+            if isinstance(t, ast.Attribute) and isinstance(t.value, ast.Name) and t.value.id == me:
+                out.append((s, t.attr, v))
+    return out
+
+
+def d5_settings(ck):
+    """The count matrix of `obj.fit(a)` must be a function of `a` and of the
+    settings the object was CONSTRUCTED with ("the requested (or observed)
+    number of states", the lag, the window mode).  Necessary: a method that
+    hands `self.X` to assigns_to_counts does not itself store into `self.X` a
+    value computed from the data it counts - otherwise the second fit of the
+    same object counts with what the first data set left behind (an observed
+    number of states becomes a requested one)."""
+    rule = 'C03.D5.settings-stable'
+    try:
+        mod = ck.repo.mod(MSM_PY)
+    except Exception:
+        ck.missing(rule, 'module %s' % MSM_PY)
+        return
+    n = 0
+    for qual, fn in sorted(mod.functions.items()):
+        calls = [c for c in calls_in(fn) if (call_name(c) or '').split('.')[-1] == COUNTS]
+        if not calls:
+            continue
+        ck.analysed(mod, fn)
+        ps = params(fn)
+        decos = {u(d).split('.')[-1] for d in fn.decorator_list}
+        if '.' not in qual or not ps or decos & {'staticmethod', 'classmethod'}:
+            continue
+        me = ps[0]
+        fi = finfo(mod, fn)
+        if _rebound(fi, me):
+            ck.missing(rule, '`%s` is rebound in %s' % (me, qual))
+            continue
+        read = {}
+        for c in calls:
+            for a in list(c.args) + [k.value for k in c.keywords]:
+                for x in walk_expr(fi.expand(a)):
+                    if isinstance(x, ast.Attribute) and isinstance(x.value, ast.Name) and x.value.id == me:
+                        read.setdefault(x.attr, c)
+        stores = _self_attr_stores(fn, me)
+        for attr, c in sorted(read.items()):
+            n += 1
+            mine = [(s, v) for s, a, v in stores if a == attr]
+            if not mine:
+                ck.ok(rule, mod, c, '%s.%s -> %s' % (me, attr, COUNTS), '%s reads the setting and never stores into it' % qual)
+                continue
+            for s, v in mine:
+                construct = '%s.%s is handed to %s and stored by %s' % (me, attr, COUNTS, qual)
+                if v is not None and isinstance(v, ast.Attribute) and u(v) == '%s.%s' % (me, attr) and isinstance(s, ast.Assign):
+                    continue
+                src, called = fi.derives_from(v) if v is not None else (set(), set())
+                data = sorted(x for x in src if x != me and not x.startswith('<free>'))
+                counted = sorted(x for x in called if x.split('.')[-1] == COUNTS)
+                if data or counted:
+                    ck.bad(rule, mod, s, qual, construct,
+                           '`%s`: the value stored comes from %s, i.e. from the data of THIS call, and `%s.%s` is the setting the '
+                           'next call of %s hands to %s: a second fit of the same object no longer counts with the settings '
+                           'it was constructed with (e.g. the number of states observed in the first data set is treated as '
+                           'requested for the second: spurious empty states, or an index error when the new data visit more states). '
+                           'Fitted quantities belong in attributes of their own (trailing underscore), not in the settings'
+                           % (u(s)[:100], ' / '.join((['the result of ' + x for x in counted]) + ['the argument `%s`' % x for x in data]),
+                              me, attr, qual, COUNTS))
+                else:
+                    ck.missing(rule, '%s stores into the counting setting %s.%s: %s' % (qual, me, attr, u(s)[:100]))
+    ck.floor(rule, n, 1, 'settings of an object handed to %s in %s' % (COUNTS, MSM_PY))
+
+
 def check(ck):
     n = d1_slices(ck)
     ck.floor('C03.D1.slices', n or 0, 2, '(sliding / strided, return) pairs examined in %s' % HELPER)
     d_counts(ck)
+    d5_settings(ck)
     check_no_arg_mutation(ck, 'C03.D6.inputs-unmodified', [
         (TM, COUNTS), (TM, HELPER)])
     return EXPLANATION
